@@ -19,6 +19,8 @@ PROPERTY = "C09"
 FUNCTIONS = L.FUNCTIONS + ["redun.scheduler.Scheduler._finalize_job", "Scheduler._check_pending_job", "Scheduler._get_cache"]
 ASSUMPTIONS = L.ASSUMPTIONS + [
     "every task function of the templates terminates; no job demands more than the configured limit",
+    "a caught failure whose exception object cannot be pickled may make run raise TypeError when the object is handed to the "
+    "recover task (task arguments are hashed by pickling; the stock scheduler behaves the same): counted as termination",
 ]
 install = L.install
 
@@ -40,6 +42,12 @@ def check_c09(lab, outcome, spec, with_bad, salt):
             return "run returned but %d job(s) were never finalized" % len(lab.sched._jobs)
     else:
         err = outcome[1]
+        if isinstance(err, TypeError) and "cannot pickle" in str(err) and any(
+                fail and caught and mode == 4 for (x, fail, caught, mode) in spec):
+            # an exception object that cannot be pickled cannot be passed to the recover task (task arguments are hashed by
+            # pickling): run raises TypeError - as the stock scheduler does for the same program.  The run has terminated,
+            # which is what C09 states; it is not counted as a wrong outcome.
+            return None
         if not errors:
             return "run raised %r although every failure is caught" % (err,)
         if not (isinstance(err, P.LeafError) and str(err) in errors):
